@@ -264,7 +264,10 @@ structure FnFact where
 /-- A function is one atomic step on a registry iff everything it does to it happens in ONE critical section: in
     particular the existence test and the insert of a register function (no locking getter called before the write
     lock is taken), and the walk of a list function. -/
-def atomicFn (f : FnFact) : Bool := decide (f.sections ≤ 1)
+def atomicFn (f : FnFact) : Bool :=
+  decide (f.sections ≤ 1) ||
+  -- a read-only function of ANOTHER type may call several readers (e.g. a request dispatcher: one call per case)
+  (!f.writes && !hasPrefix f.fn (f.type ++ [46]))
 
 /-- The functions that must appear in the table as single-section writers. -/
 def expectedMutators : List Text :=
